@@ -15,9 +15,6 @@ pub struct Action<'a, T> { p: core::marker::PhantomData<&'a T> }
 pub struct LayerStack { verif_opaque: u8 }
 #[verifier::reject_recursive_types(T)]
 #[verifier::external_body]
-pub struct TapDanceState<'a, T> { p: core::marker::PhantomData<&'a T> }
-#[verifier::reject_recursive_types(T)]
-#[verifier::external_body]
 pub struct ChordsGroup<'a, T> { p: core::marker::PhantomData<&'a T> }
 /// the closure of a custom tap-hold variant (tap-hold-release-keys, ..): opaque
 #[derive(Clone, Copy)]
@@ -37,6 +34,16 @@ pub struct VerifCustom<'a> { p: core::marker::PhantomData<&'a u8> }
 //@@ keep-vis
 //@@ no-derives
 //@@ resub Rdyn 1 /&'a \(dyn Fn\(QueuedIter\) -> \(Option<WaitingAction>, bool\) \+ Send \+ Sync\)/ => `VerifCustom<'a>`
+//@ item keyberon/src/layout.rs struct TapDanceState
+//@@ keep-vis
+//@@ no-derives
+//@@ attr #[verifier::reject_recursive_types(T)]
+//@ raw
+impl<'a, T> Copy for TapDanceState<'a, T> {}
+impl<'a, T> Clone for TapDanceState<'a, T> {
+    #[verifier::external_body]
+    fn clone(&self) -> (r: Self) ensures r == *self { *self }
+}
 //@ item keyberon/src/layout.rs enum WaitingConfig
 //@@ no-derives
 //@@ keep-vis
@@ -265,3 +272,57 @@ proof fn lemma_own_release(q: Seq<Queued>, c: KCoord, n: int)
                         forall|i: int, j: int| 0 <= i < q0.len() - queued.rest().len() && i < j < q0.len() && (#[trigger] q0[i]).event is Press
                             ==> (#[trigger] q0[j]).event != Event::Release(q0[i].event.coord_spec().0, q0[i].event.coord_spec().1),
                     decreases queued.rest().len(),
+
+
+// ---------------------------------------------------------------------------------------
+// C17, the choice of the action: the TapDance arm of WaitingState::tick_wt (a FRAGMENT).  The count
+// itself (handle_tap_dance: closures with a captured counter) stays a stub - a deterministic function
+// of the state and the queue, decided by the bounded Kani harness c17_b_handle_tap_dance.  Proved
+// here: "performs exactly the N-th listed action (the last one if N reaches the list length)", and
+// every further tap restarts the timeout.
+// ---------------------------------------------------------------------------------------
+//@ raw
+pub uninterp spec fn td_decide<'a, T>(w: WaitingState<'a, T>, num_taps: u16, max_taps: usize, q: Seq<Queued>) -> (Option<WaitingAction>, u16);
+pub uninterp spec fn td_queue<'a, T>(w: WaitingState<'a, T>, num_taps: u16, max_taps: usize, q: Seq<Queued>) -> Seq<Queued>;
+impl<'a, T> WaitingState<'a, T> {
+    #[verifier::external_body]
+    fn handle_tap_dance(&self, num_taps: u16, max_taps: usize, queued: &mut Queue) -> (r: (Option<WaitingAction>, u16))
+        ensures r == td_decide(*self, num_taps, max_taps, old(queued)@), final(queued)@ == td_queue(*self, num_taps, max_taps, old(queued)@),
+    { unimplemented!() }
+}
+pub uninterp spec fn min_spec_of<V>(a: V, b: V) -> V;
+#[verifier::allow(undeclared_external_trait)]
+pub assume_specification<V> [core::cmp::min] (a: V, b: V) -> (r: V)
+    where V: core::cmp::Ord + core::marker::Destruct,
+    ensures r == min_spec_of(a, b);
+#[verifier::external_body]
+proof fn axiom_min_usize(a: usize, b: usize)
+    ensures #[trigger] min_spec_of::<usize>(a, b) == (if a <= b { a } else { b }),
+{ unimplemented!() }
+
+//@ fragment keyberon/src/layout.rs fn tick_wt in `WaitingState<'a, T>` block-after `WaitingConfig::TapDance(ref tds) => {` as tick_wt_tap_dance
+//@@ wrap impl<'a, T> WaitingState<'a, T>
+//@@ header
+fn tick_wt_tap_dance(&mut self, tds: &TapDanceState<'a, T>, queued: &mut Queue) -> (Option<WaitingAction>, Option<WaitingConfig<'a, T>>)
+//@@ ret r
+//@@ spec
+    requires
+        old(queued)@.len() <= 32,
+        // parser guarantee: a tap-dance lists at least one action
+        tds.actions@.len() >= 1,
+    ensures ({
+        let d = td_decide(*old(self), tds.num_taps, tds.actions@.len() as usize, old(queued)@);
+        // the count as handle_tap_dance reports it
+        &&& r.0 == d.0
+        // decided: the action performed is the N-th listed one for N taps, the LAST one if N reaches
+        // (or exceeds) the list length - never an index outside the list
+        &&& d.0 is Some ==> final(self).tap == tds.actions@[(if (d.1 as int) >= tds.actions@.len() { tds.actions@.len() - 1 } else if d.1 == 0 { 0 } else { d.1 as int - 1 })]
+        &&& d.0 is None ==> final(self).tap == old(self).tap
+        // a further tap restarts the timeout; otherwise it keeps running
+        &&& final(self).timeout == (if d.1 > tds.num_taps { tds.timeout } else { old(self).timeout })
+        // the new count is what the dance continues with
+        &&& r.1 matches Some(WaitingConfig::TapDance(t2)) && t2.num_taps == d.1 && t2.actions@ == tds.actions@ && t2.timeout == tds.timeout
+        &&& final(self).coord == old(self).coord && final(self).hold == old(self).hold && final(self).timeout_action == old(self).timeout_action
+    }),
+//@@ before-re 1 /let idx =/
+    proof { axiom_min_usize(num_taps as usize, tds.actions@.len() as usize); }
